@@ -97,3 +97,83 @@ pub open spec fn scope_read_step(s0: Scope, bytes: Seq<u8>, pos0: int, limit: in
             },
     }
 }
+
+/// pre-condition of one writer step: the presence-bit positions the scope refers to lie inside what has been written
+pub open spec fn scope_write_pre(s0: Scope, b0: BitBuffer, is_opt: bool) -> bool {
+    match s0 {
+        Scope::OptBitField(range) => is_opt ==> range.start < range.end && range.end <= b0.write_position,
+        Scope::AllBitField(range) => range.start < range.end && range.end <= b0.write_position,
+        Scope::ExtensibleSequence { name, bit_pos, opt_bit_field, calls_until_ext_bitfield, number_of_ext_fields } =>
+            bit_pos < b0.write_position
+            && (calls_until_ext_bitfield == 0 ==> 1 <= number_of_ext_fields)
+            && (calls_until_ext_bitfield > 0 && is_opt ==> (opt_bit_field matches Some(range) && range.start < range.end && range.end <= b0.write_position)),
+        Scope::ExtensibleSequenceEmpty(_) => true,
+    }
+}
+
+/// Functional contract of Scope::write_into_field: one writer step of the sequence protocol
+pub open spec fn scope_write_step(s0: Scope, b0: BitBuffer, is_opt: bool, is_present: bool, s1: Scope, b1: BitBuffer, r: Result<(), Error>) -> bool {
+    match s0 {
+        Scope::OptBitField(range) => r is Ok && if is_opt {
+                s1 == Scope::OptBitField(Range { start: (range.start + 1) as usize, end: range.end })
+                && set_bit_rel(b0, b1, range.start as int, is_present)
+            } else { s1 == s0 && b1 == b0 },
+        Scope::AllBitField(range) => r is Ok &&
+                s1 == Scope::AllBitField(Range { start: (range.start + 1) as usize, end: range.end })
+                && set_bit_rel(b0, b1, range.start as int, is_present),
+        Scope::ExtensibleSequence { name, bit_pos, opt_bit_field, calls_until_ext_bitfield, number_of_ext_fields } => r is Ok &&
+            if calls_until_ext_bitfield == 0 {
+                if is_present {
+                    let l = x691_nsnnwn((number_of_ext_fields - 1) as u64).len() as int;
+                    ext_header_rel(b0, b1, bit_pos as int, number_of_ext_fields as int)
+                    && s1 == Scope::AllBitField(Range { start: (b0.write_position + l + 1) as usize, end: (b0.write_position + l + number_of_ext_fields) as usize })
+                } else {
+                    set_bit_rel(b0, b1, bit_pos as int, false)
+                    && s1 == Scope::ExtensibleSequenceEmpty(name)
+                }
+            } else {
+                match opt_bit_field {
+                    Some(range) if is_opt =>
+                        s1 == (Scope::ExtensibleSequence { name, bit_pos, opt_bit_field: Some(Range { start: (range.start + 1) as usize, end: range.end }), calls_until_ext_bitfield: (calls_until_ext_bitfield - 1) as usize, number_of_ext_fields })
+                        && set_bit_rel(b0, b1, range.start as int, is_present),
+                    _ =>
+                        s1 == (Scope::ExtensibleSequence { name, bit_pos, opt_bit_field, calls_until_ext_bitfield: (calls_until_ext_bitfield - 1) as usize, number_of_ext_fields })
+                        && b1 == b0,
+                }
+            },
+        Scope::ExtensibleSequenceEmpty(name) => (r is Err <==> is_present) && s1 == s0 && b1 == b0
+            && (r matches Err(e) ==> e.0.kind is ExtensionFieldsInconsistent),
+    }
+}
+
+// stand-ins for `#[derive(Clone)]` on Scope and `#[derive(Default)]` on UperWriter (rule R6), verified
+impl Clone for Scope {
+    fn clone(&self) -> (r: Self)
+        ensures r == *self
+    {
+        match self {
+            Scope::OptBitField(range) => Scope::OptBitField(Range { start: range.start, end: range.end }),
+            Scope::AllBitField(range) => Scope::AllBitField(Range { start: range.start, end: range.end }),
+            Scope::ExtensibleSequence { name, bit_pos, opt_bit_field, calls_until_ext_bitfield, number_of_ext_fields } =>
+                Scope::ExtensibleSequence {
+                    name: *name, bit_pos: *bit_pos,
+                    opt_bit_field: match opt_bit_field { Some(range) => Some(Range { start: range.start, end: range.end }), None => None },
+                    calls_until_ext_bitfield: *calls_until_ext_bitfield, number_of_ext_fields: *number_of_ext_fields },
+            Scope::ExtensibleSequenceEmpty(name) => Scope::ExtensibleSequenceEmpty(*name),
+        }
+    }
+}
+
+pub open spec fn scope_exhausted(s: Scope) -> bool {
+    match s {
+        Scope::OptBitField(range) => range.start == range.end,
+        Scope::AllBitField(range) => range.start == range.end,
+        Scope::ExtensibleSequence { name, bit_pos, opt_bit_field, calls_until_ext_bitfield, number_of_ext_fields } =>
+            (match opt_bit_field { Some(range) => range.start == range.end, None => true }),
+        Scope::ExtensibleSequenceEmpty(_) => true,
+    }
+}
+
+pub open spec fn scope_open_type(s: Option<Scope>) -> bool {
+    s matches Some(x) && (x is AllBitField || x is ExtensibleSequenceEmpty)
+}
